@@ -208,6 +208,11 @@ class Program:
         for st in m.tree.body:
             if isinstance(st, ast.Assign) and len(st.targets) == 1 and isinstance(st.targets[0], ast.Name):
                 m.assigns[st.targets[0].id] = st.value
+            elif isinstance(st, ast.Assign) and len(st.targets) == 1 and isinstance(st.targets[0], ast.Tuple) and isinstance(st.value, ast.Tuple) \
+                    and len(st.targets[0].elts) == len(st.value.elts) and all(isinstance(x, ast.Name) for x in st.targets[0].elts) \
+                    and not any(isinstance(x, ast.Starred) for x in st.value.elts):
+                for t_, v_ in zip(st.targets[0].elts, st.value.elts):  # NAME, PROG = "name", "prog"
+                    m.assigns[t_.id] = v_
             elif isinstance(st, ast.AnnAssign) and isinstance(st.target, ast.Name) and st.value is not None:
                 m.assigns[st.target.id] = st.value
         self._scan_body(m, m.tree.body, None, None)
